@@ -24,6 +24,8 @@ pub enum Strat {
 pub struct Topo {
     pub nodes: Vec<(u64, Option<u64>, Option<u64>)>,
     pub ring: Vec<(i64, u64)>,
+    /// node id -> (nr_shards, msb_ignore) for the nodes that have a sharder
+    pub sharders: HashMap<u64, (u16, u8)>,
 }
 
 pub fn opt_s(o: &Option<u64>) -> String {
@@ -72,7 +74,18 @@ pub fn to_strategy(s: &Strat) -> Strategy {
     }
 }
 pub fn topo_s(t: &Topo) -> (String, String) {
-    let nodes = t.nodes.iter().map(|(i, d, r)| format!("{}.{}.{}", hex_u(*i as u128), opt_s(d), opt_s(r))).collect::<Vec<_>>().join(",");
+    let nodes = t
+        .nodes
+        .iter()
+        .map(|(i, d, r)| {
+            let sh = match t.sharders.get(i) {
+                Some((nr, msb)) => format!("{}-{}", hex_u(*nr as u128), hex_u(*msb as u128)),
+                None => "_".into(),
+            };
+            format!("{}.{}.{}.{}", hex_u(*i as u128), opt_s(d), opt_s(r), sh)
+        })
+        .collect::<Vec<_>>()
+        .join(",");
     let ring = if t.ring.is_empty() {
         "-".to_string()
     } else {
@@ -90,11 +103,16 @@ pub fn parse_i(s: &str) -> i64 {
 pub fn parse_topo(nodes: &str, ring: &str) -> Topo {
     let h = |x: &str| u64::from_str_radix(x, 16).unwrap();
     let o = |x: &str| if x == "_" { None } else { Some(u64::from_str_radix(x, 16).unwrap()) };
+    let mut sharders = HashMap::new();
     let nodes = nodes
         .split(',')
         .filter(|e| !e.is_empty() && *e != "-")
         .map(|e| {
             let f: Vec<&str> = e.split('.').collect();
+            if f.len() > 3 && f[3] != "_" {
+                let (nr, msb) = f[3].split_once('-').unwrap();
+                sharders.insert(h(f[0]), (h(nr) as u16, h(msb) as u8));
+            }
             (h(f[0]), o(f[1]), o(f[2]))
         })
         .collect();
@@ -108,7 +126,16 @@ pub fn parse_topo(nodes: &str, ring: &str) -> Topo {
             })
             .collect()
     };
-    Topo { nodes, ring }
+    Topo { nodes, ring, sharders }
+}
+
+/// registers the topology's sharders with the per-host `Node::sharder` override
+pub fn install_sharders(t: &Topo) {
+    use scylla::cluster::verif_node_flags as fl;
+    fl::clear_node_sharders();
+    for (id, (nr, msb)) in &t.sharders {
+        fl::set_node_sharder(Uuid::from_u128(*id as u128), std::num::NonZeroU16::new(*nr).unwrap(), *msb);
+    }
 }
 
 pub fn build(rt: &tokio::runtime::Runtime, t: &Topo, pre: &[Strat]) -> ClusterState {
@@ -184,7 +211,25 @@ pub fn gen_topo(r: &mut Rng, dup_tokens: bool) -> Topo {
             }
         }
     }
-    Topo { nodes, ring }
+    // sharders: none / all / mixed; shard counts small, sometimes large; msb_ignore 0 or 12
+    let mut sharders = HashMap::new();
+    let style = r.below(4);
+    for (id, _, _) in &nodes {
+        let has = match style {
+            0 => false,
+            1 => true,
+            _ => r.bool(),
+        };
+        if has {
+            let nr = match r.below(8) {
+                0 => 1,
+                1 => *r.pick(&[255u16, 256, 1000, 65535]),
+                _ => r.range(2, 16) as u16,
+            };
+            sharders.insert(*id, (nr, if r.bool() { 12 } else { 0 }));
+        }
+    }
+    Topo { nodes, ring, sharders }
 }
 
 pub fn ring_dcs(t: &Topo) -> Vec<u64> {
